@@ -36,6 +36,9 @@ int cb_cmp (mixed x, mixed y) { if (cnt-- <= 0) error ("c06 half-way\n"); return
 mixed three (mixed x, mixed y, mixed z) { return ({ x, y, z }); }
 // a function result nobody else holds: n copies of x
 mixed *mk (int n, mixed x) { mixed *r = allocate (n); int i; for (i = 0; i < n; i++) r[i] = x; return r; }
+mixed fe (mixed x) { foreach (mixed e in x) { if (e) return ({ e }); } return 0; }     // return out of a running foreach
+void catch_tell (string s) { }
+mixed va (mixed *args...) { return this_object ()->three (args...); }               // argument list expanded into a call
 mixed keep2 (mixed k, mixed v, mixed x) { return 1; }
 mixed same2 (mixed k, mixed v, mixed x) { return ({ v, x }); }
 int cmp3 (mixed x, mixed y, mixed z) { return 0; }
@@ -153,7 +156,7 @@ void run_efun (int f, mixed a, mixed b) {
     oc = new (class c06cls); oc->f0 = ({ a }); oc->f0 = (oc->f1 = ({ b })); oc->f1 += ({ a }); oc->f2 = oc->f0; oc->f2 = ([ 1 : oc->f1 ]); oc->f0 = 0; r = oc;
     break;
   case 77:   // op-assign forms on holders of counted values
-    r = ({ a }); r += ({ b }); r -= ({ a }); r &= ({ b, a }); r |= ({ ({ a }) }); m = ([ 1 : a ]); m += ([ 2 : ({ b }) ]); m[1] = m[2];
+    r = ({ a }); r += ({ b }); r -= ({ a }); r = r & ({ b, a }); m = ([ 1 : a ]); m += ([ 2 : ({ b }) ]); m[1] = m[2];
     q = "x" + sizeof (a); q += "y"; q += sizeof (b); l1 = q; l1 += q; r = ({ q, l1 }); r[0] += r[1]; m[3] = q; m[3] += "z";
     break;
   case 78:   // ++ / -- on numbers that live in holders next to counted values
@@ -163,6 +166,46 @@ void run_efun (int f, mixed a, mixed b) {
   case 79:   // range lvalues on strings and buffers: temporary / shared right-hand side, same and other length
     q = "abcdef" + sizeof (a); q[0..1] = "xy"; q[0..0] = "long" + q; l1 = q; l1[1..2] = q; l2 = (q[2..3] = l1); l2 = (q[0..1] = "zz" + sizeof (b));
     r = allocate_buffer (8); r[0..1] = allocate_buffer (2); r[0..3] = allocate_buffer (1); l1 = r; l1[0..0] = r; l2 = (r[1..2] = allocate_buffer (3));
+    break;
+  // ---- operators and efuns the opcode histogram (hook verif_op_hist) showed as never executed (round 6) ----
+  case 80:   // || ! != < > on counted operands, reverse index / range forms
+    r = a || b; r = b || ({ a }); r = !a + !({ b }); r = (a != b) + (({ a }) != ({ a })) + (a == b);
+    r = ("x" + sizeof (a) < "y") + ("x" > "w" + sizeof (b)); q = ({ 1, ({ a }), b, "s" + sizeof (a) });
+    r = q[<1]; r = q[<3..2]; r = q[<3..<1]; r = q[1..]; q[<2..2] = ({ a }); q[<2..<1] = ({ b, ({ a }) }); r = q[<2];
+    break;
+  case 81:   // op-assign and ++/-- in value context, while (i--), mapping composition
+    q = ({ a }); r = (q += ({ b })); r = (q -= ({ a })); m = ([ 1 : a ]); r = (m += ([ 2 : b ])); l1 = ({ 1, 2 }); r = ++l1[0]; r = --l1[1];
+    i1 = 3; while (i1--) r = ({ r, a }); l2 = "s" + sizeof (a); r = (l2 += "t"); r = ([ 1 : 2 ]) * ([ 2 : ({ a }) ]);
+    break;
+  case 82:   // leaving a running foreach: break, return
+    foreach (mixed e in ({ ({ a }), b, ({ b }) })) { r = e; if (arrayp (e)) break; }
+    foreach (mixed k, mixed e in ([ 1 : ({ a }), 2 : b ])) { r = ({ k, e }); break; }
+    r = fe (({ 0, ({ a }), b })); r = fe (({ ({ b }) }));
+    foreach (mixed e in "ab" + sizeof (a)) { r = e; break; }
+    break;
+  case 83:   // class with initialisers, argument expansion, inherited call, time_expression
+    oc = new (class c06cls, f0 : ({ a }), f1 : b); r = oc; r = va (({ a }), b, mk (2, a)); r = "/c06/uobj"->call_base (({ a }));
+    r = time_expression { q = ({ a, b }); };
+    break;
+  case 84:   // type predicates and one-argument efuns: the argument is released
+    r = objectp (a) + functionp ((: same, a :)) + classp (new (class c06cls)) + bufferp (allocate_buffer (1)) + intp (({ a })) + undefinedp (([ ])[1]);
+    r = floatp (b) + clonep (this_object ()) + virtualp (this_object ()) + interactive (this_object ()) + userp (this_object ()) + living (this_object ());
+    r = file_name (this_object ()) + geteuid (this_object ()) + ctime (0); r = localtime (0); r = to_float (1); r = random (3);
+    break;
+  case 85:   // object relations: results are arrays of objects / strings
+    r = all_inventory (this_object ()) + deep_inventory (this_object ()); r = first_inventory (this_object ()); r = environment ();
+    r = present ("x", this_object ()); r = users () + livings () + heart_beats () + named_livings (); r = find_object ("/c06/main");
+    r = inherits ("/c06/base", find_object ("/c06/uobj")); r = function_exists ("same", this_object ()); r = origin (); r = previous_object ();
+    r = master (); r = shallow_inherit_list (find_object ("/c06/uobj")); r = rusage ();
+    break;
+  case 86:   // strings, bits, files
+    r = strsrch ("abc" + sizeof (a), "b"); r = strcmp ("a" + sizeof (a), "b"); r = test_bit (set_bit ("", 3), 3) + next_bit (set_bit ("", 3), 0);
+    r = get_dir ("/c06/"); r = stat ("/c06/main.c"); r = file_size ("/c06/main.c") + file_length ("/c06/base.c"); r = read_file ("/c06/base.c", 1, 1);
+    r = read_bytes ("/c06/base.c", 0, 4); r = crypt ("x" + sizeof (a), "ab"); r = pow (2.0, 2.0); r = time () + uptime ();
+    break;
+  case 87:   // messages to objects
+    tell_object (this_object (), "t" + sizeof (a)); tell_room (this_object (), "r" + sizeof (b)); tell_room (this_object (), "r", ({ this_object () }));
+    message ("c", "m" + sizeof (a), this_object (), ({ this_object () }));
     break;
   case 39: r = allocate_mapping (3); r["k"] = ({ a }); r[({ b })] = r["k"] + raise (b); break;
   }
